@@ -214,6 +214,8 @@ def render_prop(kind, val):
         return rs_str(val)
     if kind == "int":
         return str(val)
+    if kind == "intlit":       # (source spelling, value)
+        return val[0]
     if kind == "bool":
         return "true" if val else "false"
     return str(val)   # raw literal text (C20)
